@@ -6,6 +6,19 @@ from baize.typing import Environ, StartResponse, WSGIApp
 from .responses import PlainTextResponse, Response
 
 
+def decode_path_info(environ: Environ) -> str:
+    """
+    `PATH_INFO` is a "bytes-as-unicode" string (PEP 3333): the percent-decoded
+    bytes of the path decoded as Latin-1. Routes, prefixes and file names are
+    real text, so decode it as UTF-8 before comparing.
+    """
+    path = environ.get("PATH_INFO", "")
+    try:
+        return path.encode("latin-1").decode("utf-8")
+    except UnicodeError:
+        return path
+
+
 class Router(BaseRouter[WSGIApp]):
     """
     A router to assign different paths to different WSGI applications.
@@ -23,7 +36,7 @@ class Router(BaseRouter[WSGIApp]):
     def __call__(
         self, environ: Environ, start_response: StartResponse
     ) -> Iterable[bytes]:
-        result = self.search(environ.get("PATH_INFO", ""))
+        result = self.search(decode_path_info(environ))
         if result is None:
             response: WSGIApp = Response(404)
         else:
@@ -52,11 +65,13 @@ class Subpaths(BaseSubpaths[WSGIApp]):
         self, environ: Environ, start_response: StartResponse
     ) -> Iterable[bytes]:
         path = environ.get("PATH_INFO", "")
-        result = self.search(path)
+        result = self.search(decode_path_info(environ))
         if result is None:
             response: WSGIApp = Response(404)
         else:
             prefix, response = result
+            # back to the "bytes-as-unicode" form used in environ
+            prefix = prefix.encode("utf-8").decode("latin-1")
             environ["SCRIPT_NAME"] = environ.get("SCRIPT_NAME", "") + prefix
             environ["PATH_INFO"] = path[len(prefix) :]
         yield from response(environ, start_response)
